@@ -768,9 +768,45 @@ def _shape(info, cn):
     return "flat"
 
 
+def _left_behind_kinds(ex, info):
+    """(component, workplace) -> how a nested component came to be listed by a workplace it does not report, judged at the first snapshot that shows it:
+    the top-most ancestor whose location changed in that transition is the assembly that was moved.  None = the part's own parent is neither the moved
+    assembly nor was it listed at that workplace (the recorded deep-nesting finding); anything else is a different history and gets its own signature."""
+    kinds, prev = {}, None
+    for _t, _ph, _w, sn in ex.trace:
+        comps, wps = sn["components"], sn["workplaces"]
+        for wpn, lst in wps.items():
+            for cn in lst:
+                parents = info.comp_parents.get(cn)
+                if not parents or comps[cn][1] == wpn:
+                    continue
+                if prev is not None and cn in prev["workplaces"].get(wpn, ()) and prev["components"][cn][1] != wpn:
+                    continue  # (same episode as in the previous snapshot)
+                kind = None
+                if prev is not None:
+                    pc = prev["components"]
+                    anc, todo = [], list(parents)
+                    while todo:
+                        a_ = todo.pop()
+                        if a_ not in anc:
+                            anc.append(a_)
+                            todo += info.comp_parents.get(a_, [])
+                    changed = [a_ for a_ in anc if pc[a_][1] != comps[a_][1]]
+                    movers = [a_ for a_ in changed if not any(g in changed for g in info.comp_parents.get(a_, []))]
+                    if any(p_ in movers for p_ in parents):
+                        kind = "direct-child-left-behind-when-its-assembly-moved"
+                    elif any(pc[p_][1] == wpn for p_ in parents):
+                        kind = "part-left-behind-although-its-sub-assembly-was-taken-from-the-same-workplace"
+                if kind is not None or (cn, wpn) not in kinds:
+                    kinds[(cn, wpn)] = kind
+        prev = sn
+    return kinds
+
+
 def mon_c13(ex, info, col):
     out = []
     bs = ex.by_step()
+    lb = _left_behind_kinds(ex, info)
     for t in sorted(bs):
         phs = bs[t]
         for ph, (working, sn) in phs.items():
@@ -796,6 +832,8 @@ def mon_c13(ex, info, col):
                             # workplace it was processed in - or the other way round: it does not report where its assembly is
                             follows = bool(anc) and anc_places == {comps[cn][1]}
                             shape = "nested:part-follows-its-assembly-but-its-own-workplace-still-lists-it" if (follows and wpn not in anc_places) else "nested:part-does-not-report-where-its-assembly-is"
+                            if lb.get((cn, wpn)):
+                                shape = "nested:" + lb[(cn, wpn)]
                         out.append(V("C13", "C13:workplace-lists-component-that-reports-another-place[%s]" % shape, ex,
                                      {"t": t, "phase": ph, "workplace": wpn, "component": cn, "component_says": comps[cn][1]}))
                 used = sum((1.0 if info.comps[c].get("space") is None else info.comps[c]["space"]) for c in _top_most(info, lst))
@@ -807,7 +845,8 @@ def mon_c13(ex, info, col):
                     out.append(V("C13", "C13:capacity-exceeded[%s]" % ("nested" if any(_shape(info, c) == "nested" for c in lst) else "flat"), ex, {"t": t, "phase": ph, "workplace": wpn, "placed": lst, "used": used, "capacity": cap}))
             for cn, (cs, wpn) in comps.items():
                 if len(where.get(cn, [])) > 1:
-                    out.append(V("C13", "C13:component-at-several-workplaces[%s]" % _shape(info, cn), ex, {"t": t, "phase": ph, "component": cn, "workplaces": where[cn]}))
+                    kd = [lb[(cn, w_)] for w_ in where[cn] if lb.get((cn, w_))]
+                    out.append(V("C13", "C13:component-at-several-workplaces[%s]" % ("nested:" + kd[0] if kd else _shape(info, cn)), ex, {"t": t, "phase": ph, "component": cn, "workplaces": where[cn]}))
                 if wpn is not None and cn not in wps.get(wpn, ()):
                     out.append(V("C13", "C13:component-reports-place-but-workplace-does-not-list-it[%s]" % _shape(info, cn), ex, {"t": t, "phase": ph, "component": cn, "workplace": wpn}))
             if ph == "updated":
@@ -884,7 +923,8 @@ def mon_c13(ex, info, col):
             for cn in lst:
                 rec = m.byname[cn].placed_workplace_id_record
                 if k < len(rec) and rec[k] != wpn:
-                    out.append(V("C13", "C13:logs-disagree-workplace-lists-component-logged-elsewhere[%s]" % _shape(info, cn), ex, {"k": k, "component": cn, "workplace": wpn, "component_log": rec[k]}))
+                    out.append(V("C13", "C13:logs-disagree-workplace-lists-component-logged-elsewhere[%s]" % ("nested:" + lb[(cn, wpn)] if lb.get((cn, wpn)) else _shape(info, cn)), ex,
+                                 {"k": k, "component": cn, "workplace": wpn, "component_log": rec[k]}))
     for tn in info.tnames:
         if not info.needs_facility(tn) or tn not in info.task_comp:
             continue
